@@ -90,11 +90,12 @@ C19_COSTS = [(1, 1, 2, 2), (1, 1, 0, 0), (2, 1, 1, 3), (1, 2, 3, 1), (3, 1, 5, 2
 
 
 def threshold_costs():
-    """Cost vectors whose ratio (wd+rd)/uf lies just below, just above and half a unit below each
-    threshold beta(cm+1, t) of the closed form (seed R6-C13-b: the ratio rounded to an integer)."""
+    """Cost vectors whose ratio (wd+rd)/uf lies exactly on, just below, just above and half a unit
+    below each threshold beta(cm+1, t) of the closed form, the first one (ratio 1) included
+    (seeds R6-C13-b: the ratio rounded to an integer; R7-C08-b: a bounded search one short at ratio 1)."""
     out = []
-    for b in (3, 4, 5, 6, 10, 15, 20):
-        for tot in (4 * b - 2, 4 * b - 1, 4 * b + 1):
+    for b in (1, 3, 4, 5, 6, 10, 15, 20):
+        for tot in (4 * b - 2, 4 * b - 1, 4 * b, 4 * b + 1):
             out.append((4, 1, tot // 2, tot - tot // 2))
     return out
 
